@@ -8,7 +8,8 @@ from reactivex import operators as ops
 
 from vlib.core import FAIL, OK, SKIP, Check
 from vlib.pipes import OPS, op_names, pipelines
-from vlib.values import Tagged
+from vlib.lab import BudgetExceeded
+from vlib.values import Tagged, val
 from vlib.relsub import INF, Diverged, DProbe, OBuilder, TLab, all_inners, release_deadline
 
 PROPERTY_ID = "C02"
@@ -32,6 +33,12 @@ RULE = (
     "unsubscribed by t*); if t* exists the subscription must be closed with b <= t* (in particular none is open at "
     "the end of the run). If some inner probe stays live for ever, nothing is demanded of subscriptions it could "
     "share. Inner observables that were never subscribed hold no subscription and do not postpone t*. "
+    "One case in four runs on HistoricalScheduler (datetime clock, timedelta arguments). Family iter_take: an unbounded "
+    "synchronous producer (from_iterable over a counted infinite generator, repeat_value, range(10^9), generate with "
+    "an always-true condition, repeat() of a synchronous source) through 0-2 synchronous operators into take/first/"
+    "element_at/take_while_indexed, on virtual time or on the trampoline: once the subscriber has its terminal no pull / "
+    "generate callback / counted element step may follow (the producer is the source: being driven after the terminal "
+    "means its subscription outlived the termination; a runaway is cut by the work budget and reported). "
     "Non-trivial: the top probe terminated, >=2 source subscriptions were opened and at least one of them was "
     "opened on a source that had not delivered its own terminal by T. Distinct = distinct case JSON."
 )
@@ -62,8 +69,14 @@ def _src_done_by(s, a, T):
     return due <= T
 
 
+def mk_lab(case):
+    """Virtual clock of the case: TestScheduler ticks, or HistoricalScheduler (datetime clock, 1 tick = 1 ms; all
+    time arguments become timedelta)."""
+    return TLab("hist", tick_s=0.001) if case.get("clock") == "hist" else TLab()
+
+
 def run_pipeline(case, make=None):
-    lab = TLab()
+    lab = mk_lab(case)
     if make is None:
         o = OBuilder(lab).build(case["pipe"])
     else:
@@ -147,6 +160,8 @@ def judge(case, pc, lab, p):
         return OK(False, cls)
     T = term[0]
     cls.append("terminal:" + term[1])
+    if case.get("clock") == "hist":
+        cls.append("clock:hist")
     if case.get("raise"):
         if getattr(lab, "through_subscribe", False):
             cls.append("raise:" + case["raise"] + ":through-subscribe-not-judged")
@@ -206,6 +221,7 @@ def judge(case, pc, lab, p):
 
 
 s_raise = st.sampled_from([None, None, None, "handler", "default"])
+s_clock = st.sampled_from(["test", "test", "test", "hist"])
 
 
 def inner_policies():
@@ -235,7 +251,7 @@ def cases(max_ops, **kw):
     def _c(draw):
         pc = draw(pipelines(max_ops=max_ops, conforming=True, **kw))
         pc = _terminate_roots(draw, pc)
-        return {"pipe": pc, "inner": draw(inner_policies()), "raise": draw(s_raise)}
+        return {"pipe": pc, "inner": draw(inner_policies()), "raise": draw(s_raise), "clock": draw(s_clock)}
 
     return _c()
 
@@ -279,7 +295,7 @@ def cases_inner(max_ops):
         pc["ops"] = _fit(pc["ops"] + [[g, draw(OPS[g].args)]] + post)
         pc = _terminate_roots(draw, pc)
         pol = draw(inner_policies())
-        return {"pipe": pc, "inner": pol, "raise": draw(s_raise)}
+        return {"pipe": pc, "inner": pol, "raise": draw(s_raise), "clock": draw(s_clock)}
 
     return _c()
 
@@ -365,8 +381,114 @@ def cases_gbu():
     pol = st.fixed_dictionaries(
         {"mode": st.sampled_from(["now", "late", "never"]), "d": st.integers(0, 2), "unsub": st.one_of(st.none(), st.integers(0, 4), st.integers(0, 4))}
     )
-    return st.fixed_dictionaries({"src": src, "g": g, "end": enders, "inner": pol, "raise": s_raise}).map(
-        lambda c: {"pipe": {"root": {"f": "single", "srcs": [c["src"]]}, "ops": [["group_by_until_self", c["g"]]] + c["end"]}, "inner": c["inner"], "raise": c["raise"]}
+    return st.fixed_dictionaries({"src": src, "g": g, "end": enders, "inner": pol, "raise": s_raise, "clock": s_clock}).map(
+        lambda c: {"pipe": {"root": {"f": "single", "srcs": [c["src"]]}, "ops": [["group_by_until_self", c["g"]]] + c["end"]}, "inner": c["inner"], "raise": c["raise"], "clock": c["clock"]}
+    )
+
+
+# ---------------------------------------------------------------------------------------
+# unbounded synchronous producers ended from downstream: the producer *is* the source; if it is still pulled /
+# stepped after the subscriber's terminal its subscription has outlived the pipeline's termination.
+
+ITER_OPS = ["map", "filter", "scan", "distinct_until_changed", "pairwise", "start_with", "do_action", "map_indexed", "skip", "default_if_empty"]
+
+
+def _run_iter(case):
+    from reactivex.scheduler import CurrentThreadScheduler  # noqa
+
+    lab = mk_lab(case)
+    lab.budget = 1500  # a few hundred steps suffice for every bounded run of this family
+    B = OBuilder(lab)
+    B.cur = case["form"]
+    form = case["form"]
+    vals = case["vals"]
+    if form == "from_iterable":
+        pull = B.fn("next", lambda i: None)
+
+        def gen():
+            i = 0
+            while True:
+                pull(i)
+                yield val(vals[i % len(vals)])
+                i += 1
+
+        o = reactivex.from_iterable(gen())
+    elif form == "repeat_value":
+        o = reactivex.repeat_value(val(vals[0]))
+    elif form == "range":
+        o = reactivex.range(10**9)
+    elif form == "generate":
+        o = reactivex.generate(0, B.fn("condition", lambda i: True), B.fn("iterate", lambda i: i + 1))
+    elif form == "repeat_op":
+        o = B._mk({"kind": "sync", "tl": [[0, "N", vals[0]], [0, "C", None]]}, -1, False).pipe(ops.repeat())
+    else:
+        raise AssertionError(form)
+    o = o.pipe(ops.map(B.fn("count", lambda x: x)))  # every element passes a counted harness step (work budget)
+    B.opi = 1
+    for name, a in case["ops"] + [case["end"]]:
+        o = B.build_op(name, a)(o)
+    p = DProbe(lab, "p", inner=None, raise_terminal=case.get("raise") == "handler")
+    lab.probes.append(p)
+    tramp = case["sched"] == "tramp"
+    runaway = False
+    try:
+        p.subscribe(o, scheduler=None if tramp else "lab")
+        for _ in range(3):
+            if lab.inconclusive or tramp:
+                break
+            lab.run()
+            if isinstance(lab.escaped, Tagged) and lab.escaped.tag == "probe:p:terminal":
+                lab.escaped = None
+                continue
+            break
+    except BudgetExceeded:
+        lab.inconclusive = "budget"
+    except (RecursionError, Diverged):
+        lab.inconclusive = "recursion"
+    except Tagged as e:
+        if e.tag != "probe:p:terminal":
+            raise
+    term = p.terminal()
+    cls = ["iter:" + form, "iter:" + case["sched"]]
+    if lab.escaped is not None:
+        return SKIP("escaped:" + type(lab.escaped).__name__)
+    if term is None:
+        return SKIP(lab.inconclusive or "no-terminal")  # e.g. filter that never passes: unbounded by construction
+    if getattr(lab, "through_subscribe", False) and case.get("raise"):
+        cls.append("raise:handler:through-subscribe-not-judged")
+        return OK(False, cls)
+    later = [e for e in lab.cb_log if e[1] > term[3]]
+    if lab.inconclusive == "budget" or later:
+        what = f"user code {later[0][2]}{later[0][3]} ran at seq {later[0][1]}" if later else "the producer ran until the work budget was exhausted"
+        return FAIL(f"producer-outlives-terminal|{form}", f"{what} after the subscriber's terminal {term[1]} (seq {term[3]}); case={case}", classes=cls)
+    if lab.inconclusive:
+        return SKIP(lab.inconclusive)
+    open_ = [(s.name, i) for s in lab.sources for i, (a_, b_) in enumerate(s.subs) if b_ is None]
+    if open_:
+        return FAIL(f"never-closed|{form}", f"source subscriptions {open_} open at the end; case={case}", classes=cls)
+    cls.append("iter:ended-by:" + case["end"][0])
+    return OK(True, cls)
+
+
+def cases_iter():
+    v = st.sampled_from(["i1", "i2", "none", "sa", "i0"])
+    plain = st.sampled_from(ITER_OPS).flatmap(lambda n: st.tuples(st.just(n), OPS[n].args).map(list))
+    end = st.one_of(
+        st.integers(0, 4).map(lambda n: ["take", {"n": n}]),
+        st.just(["first", {"p": None}]),
+        st.integers(0, 3).map(lambda n: ["element_at", {"n": n}]),
+        st.integers(1, 3).map(lambda n: ["take_while_indexed", {"p": {"m": 4, "r": list(range(n))}, "inc": False}]),
+    )
+    return st.fixed_dictionaries(
+        {
+            "form": st.sampled_from(["from_iterable", "from_iterable", "repeat_value", "range", "generate", "repeat_op"]),
+            "vals": st.lists(v, min_size=1, max_size=3),
+            "ops": st.lists(plain, max_size=2),
+            "end": end,
+            "sched": st.sampled_from(["vt", "tramp"]),
+            "raise": st.sampled_from([None, None, "handler"]),
+            "clock": s_clock,
+        }
     )
 
 
@@ -376,5 +498,6 @@ def checks(tier):
         Check("pipelines", _run, strategy=cases(4 if q else 6), examples={"quick": 2000, "thorough": 16 * 4000}, shards={"quick": 4, "thorough": 16}),
         Check("inners", _run, strategy=cases_inner(4 if q else 6), examples={"quick": 2000, "thorough": 16 * 4000}, shards={"quick": 4, "thorough": 16}),
         Check("gbu_self", _run_gbu, strategy=cases_gbu(), examples={"quick": 600, "thorough": 16 * 1000}, shards={"quick": 4, "thorough": 16}),
+        Check("iter_take", _run_iter, strategy=cases_iter(), examples={"quick": 400, "thorough": 16 * 1000}, shards={"quick": 4, "thorough": 16}),
         Check("enders", _run, strategy=cases_forced(3 if q else 5), examples={"quick": 1000, "thorough": 16 * 2000}, shards={"quick": 4, "thorough": 16}),
     ]
